@@ -120,8 +120,12 @@ package compiler
 //@   ensures grows(p) && pvInv(p)
 //@   loop 1 invariant 0 - 1 <= rangeindex && rangeindex < len(p.resources)
 //@   loop 1 invariant alreadyAllocated ==> addrOK(p, monAddr, 5)
+// C03 C08: a monetary literal that re-uses an earlier constant re-uses one with the same asset and the same amount (the whole
+// amount, not a part of it): the constant a send moves is the one the script wrote
+//@   loop 1 invariant alreadyAllocated ==> monAddr != nil && typeis(p.resources[deref(monAddr)], "program.Monetary") && val(as(p.resources[deref(monAddr)], "program.Monetary").Amount) == val(amt) && as(p.resources[deref(monAddr)], "program.Monetary").Asset == deref(assetAddr) // C03 C08
 //@   modifies parseVisitor.instructions, parseVisitor.resources, ghost tstack
 //@   property C12 C08
+//@   alsofor C03
 
 // grammar fact: the operator token of `lhs op rhs` is + or - (NumScript.g4: op=(OP_ADD|OP_SUB))
 //@ def addSubOp(c) = lib("iface:antlr.Token.GetTokenType", lib("(*parser.ExprAddSubContext).GetOp", as(c, "*parser.ExprAddSubContext")))
@@ -224,3 +228,14 @@ package compiler
 //@   modifies nothing
 //@   nopanic // C12
 //@   property C12
+
+// ---- C01: which source is exempt from the overdraft rule. Only the constant account named exactly "world" is: the
+// compiler gives a source the unbounded fallback (TAKE_ALWAYS) when isWorld says so, and the VM treats exactly "world"
+// as the account that is never short -- any other spelling is an ordinary account with an ordinary balance.
+//@ func (*compiler.parseVisitor).isWorld
+//@   requires p != nil
+//@   ensures ret ==> 0 <= addr && addr < len(p.resources) && typeis(p.resources[addr], "program.Constant") && typeis(as(p.resources[addr], "program.Constant").Inner, "machine.AccountAddress") && as(as(p.resources[addr], "program.Constant").Inner, "machine.AccountAddress") == "world"
+//@   ensures (0 <= addr && addr < len(p.resources) && typeis(p.resources[addr], "program.Constant") && typeis(as(p.resources[addr], "program.Constant").Inner, "machine.AccountAddress") && as(as(p.resources[addr], "program.Constant").Inner, "machine.AccountAddress") == "world") ==> ret
+//@   modifies nothing
+//@   nopanic
+//@   property C01 C12
